@@ -4,8 +4,49 @@ From V Require Import Val Bytes StrGo C14RtspCodec.
 Import ListNotations.
 Open Scope Z_scope.
 
-(* the generator emits only Request-URIs that net/url prints back unchanged *)
-Definition url_run : bytes -> option bytes := url_accept.
+(* ---- structured URLs on the wire ----
+   (0) = "*";  (1 path query?) = path only;  (2 scheme user? host port? path query?) = absolute,
+   user? = () | (user) | (user password), host = (0 name) | (1 addr) | (1 addr zone),
+   port? / query? = () | (bytes) *)
+Definition dec_optb (v : val) : option bytes :=
+  match as_list v with x :: _ => Some (as_bytes x) | [] => None end.
+Definition dec_host (v : val) : shost :=
+  match as_int (nthv 0 v) with
+  | 0 => HName (as_bytes (nthv 1 v))
+  | _ => HV6 (as_bytes (nthv 1 v)) (match as_list v with _ :: _ :: z :: _ => Some (as_bytes z) | _ => None end)
+  end.
+Definition dec_user (v : val) : option (bytes * option bytes) :=
+  match as_list v with
+  | [] => None
+  | [u] => Some (as_bytes u, None)
+  | u :: pw :: _ => Some (as_bytes u, Some (as_bytes pw))
+  end.
+Definition dec_surl (v : val) : surl :=
+  match as_int (nthv 0 v) with
+  | 0 => SStar
+  | 1 => SPath (as_bytes (nthv 1 v)) (dec_optb (nthv 2 v))
+  | _ => SAbs (as_bytes (nthv 1 v))
+              {| a_user := dec_user (nthv 2 v); a_host := dec_host (nthv 3 v); a_port := dec_optb (nthv 4 v) |}
+              (as_bytes (nthv 5 v)) (dec_optb (nthv 6 v))
+  end.
+
+Definition enc_optb (o : option bytes) : val := match o with Some b => VL [VB b] | None => VL [] end.
+(* the parsed URL as observed: the fields, then Hostname(), Port(), String() *)
+Definition enc_gourl (g : gourl) : val :=
+  VL [VB (g_scheme g); enc_optb (g_user g); VB (g_host g); VB (g_path g); enc_optb (g_query g);
+      VB (fst (split_host_port (g_host g))); VB (snd (split_host_port (g_host g))); VB (gourl_string g)].
+Definition dec_gourl (v : val) : gourl :=
+  {| g_scheme := as_bytes (nthv 0 v); g_user := dec_optb (nthv 1 v); g_host := as_bytes (nthv 2 v);
+     g_path := as_bytes (nthv 3 v); g_query := dec_optb (nthv 4 v) |}.
+
+(* net/url restricted to the Request-URIs the case itself emits (plus "*"): the law
+   parse (print u) = u holds for this instance by construction; that the real net/url obeys it
+   on the grammar is what the streams written_streams and url_law test *)
+Definition url_table (urls : list surl) (s : bytes) : option gourl :=
+  match find (fun u => bytes_eqb (surl_print u) s) (SStar :: urls) with
+  | Some u => Some (gourl_of u)
+  | None => None
+  end.
 
 Definition dec_field (v : val) : bytes * list bytes :=
   (as_bytes (nthv 0 v), map as_bytes (as_list (nthv 1 v))).
@@ -15,7 +56,7 @@ Definition enc_hdr (h : header) : val :=
 
 Definition dec_item (v : val) : item :=
   match as_int (nthv 0 v) with
-  | 0 => IReq {| q_method := as_bytes (nthv 1 v); q_url := as_bytes (nthv 2 v); q_proto := RTSP10;
+  | 0 => IReq {| q_method := as_bytes (nthv 1 v); q_url := gourl_of (dec_surl (nthv 2 v)); q_proto := RTSP10;
                  q_hdr := dec_hdr (nthv 3 v); q_body := as_bytes (nthv 4 v) |}
   | 1 => IResp {| p_proto := RTSP10; p_code := as_int (nthv 1 v); p_status := as_bytes (nthv 2 v);
                   p_hdr := dec_hdr (nthv 3 v); p_body := as_bytes (nthv 4 v) |}
@@ -24,14 +65,14 @@ Definition dec_item (v : val) : item :=
 
 Definition enc_event (ev : event) : val :=
   match ev with
-  | EvReq q => VL [VI 0; VB (q_method q); VB (q_url q); VB (q_proto q); enc_hdr (q_hdr q); VB (q_body q)]
+  | EvReq q => VL [VI 0; VB (q_method q); enc_gourl (q_url q); VB (q_proto q); enc_hdr (q_hdr q); VB (q_body q)]
   | EvResp p => VL [VI 1; VB (p_proto p); VI (p_code p); VB (p_status p); enc_hdr (p_hdr p); VB (p_body p)]
   | EvPack c d => VL [VI 2; VI c; VB d]
   | EvSkip => VL [VI 3]
   end.
 Definition dec_event (v : val) : event :=
   match as_int (nthv 0 v) with
-  | 0 => EvReq {| q_method := as_bytes (nthv 1 v); q_url := as_bytes (nthv 2 v); q_proto := as_bytes (nthv 3 v);
+  | 0 => EvReq {| q_method := as_bytes (nthv 1 v); q_url := dec_gourl (nthv 2 v); q_proto := as_bytes (nthv 3 v);
                   q_hdr := dec_hdr (nthv 4 v); q_body := as_bytes (nthv 5 v) |}
   | 1 => EvResp {| p_proto := as_bytes (nthv 1 v); p_code := as_int (nthv 2 v); p_status := as_bytes (nthv 3 v);
                    p_hdr := dec_hdr (nthv 4 v); p_body := as_bytes (nthv 5 v) |}
@@ -64,7 +105,7 @@ Definition x_C14_raw (c : val) : val :=
   let kind := as_int (nthv 0 c) in
   let cfg := dec_cfg (nthv 1 c) in
   let s := as_bytes (nthv 4 c) in
-  let '(evs, fin) := model_obs url_run kind cfg s in
+  let '(evs, fin) := model_obs url_accept kind cfg s in
   VL [enc_evs evs; enc_final fin].
 
 (* observation = (events final pulled) *)
@@ -81,12 +122,14 @@ Definition x_C14_raw_ok (v : val) : val :=
   end.
 
 (* ---- written streams: case = (cfg bufsize chunks items tail) ---- *)
+Definition case_urls (c : val) : list surl :=
+  flat_map (fun v => match as_int (nthv 0 v) with 0 => [dec_surl (nthv 2 v)] | _ => [] end) (as_list (nthv 3 c)).
 Definition x_C14_items (c : val) : val :=
   let cfg := dec_cfg (nthv 0 c) in
   let items := map dec_item (as_list (nthv 3 c)) in
   let tail := as_bytes (nthv 4 c) in
   let s := concat_items cfg items ++ tail in
-  let '(evs, fin) := model_obs url_run 0 cfg s in
+  let '(evs, fin) := model_obs (url_table (case_urls c)) 0 cfg s in
   VL [VB s; enc_evs evs; enc_final fin; VI (-1)].
 
 (* observation = (wire events final pulled) *)
@@ -98,17 +141,42 @@ Definition x_C14_items_ok (v : val) : val :=
   let tail := as_bytes (nthv 4 c) in
   match o with
   | VL [VB wire; evs; fin; VI pulled] =>
-      vbool (ok_items cfg items tail (slack_of bufsize) wire (dec_evs evs) (dec_final fin) pulled)
+      vbool (ok_items (url_table (case_urls c)) cfg items tail (slack_of bufsize) wire (dec_evs evs) (dec_final fin) pulled)
   | _ => vbool false
   end.
 
 (* is every item of the case in the emit grammar of the round-trip theorems? (statistics) *)
 Definition x_C14_items_wf (c : val) : val :=
   let cfg := dec_cfg (nthv 0 c) in
-  vbool (forallb (item_wf url_accept cfg) (map dec_item (as_list (nthv 3 c)))).
+  vbool (forallb (item_wf (url_table (case_urls c)) cfg) (map dec_item (as_list (nthv 3 c)))).
 
 (* direct correspondence of the string helpers *)
 Definition x_C14_canonkv (c : val) : val := VB (canonical_kv (as_bytes c)).
 Definition x_C14_canonkey (c : val) : val := VB (canon_key (as_bytes c)).
 Definition x_C14_rtphdr (c : val) : val :=
   VI (match rtp_hdr_check (as_bytes c) with HOk => 0 | HErr => 1 | HPanic => 2 | HFuel => 3 end).
+
+(* ---- the URL grammar against net/url and against ReadRequest's host fix ----
+   case = structured URL; observation = (printed URL, url.ParseRequestURI of it as observed,
+   the same after the host fix of a request "OPTIONS|DESCRIBE <url> RTSP/1.0") *)
+Definition x_C14_urllaw (c : val) : val :=
+  let u := dec_surl c in
+  VL [VB (surl_print u); enc_gourl (gourl_of u); enc_gourl (fix_url (gourl_of u))].
+(* is the case in the grammar of the theorems, and does the fix change only an empty port? *)
+Definition x_C14_urllaw_ok (v : val) : val :=
+  let u := dec_surl (nthv 0 v) in let o := nthv 1 v in
+  match o with
+  | VL [VB printed; parsed; fixed] => vbool (ok_url u printed (dec_gourl parsed) (dec_gourl fixed))
+  | _ => vbool false
+  end.
+
+(* ---- the pull client's URL: case = structured URL (scheme rtsp); observation = (URL kept by
+   NewPullClient, URL of its first request as read back by ReadRequest) ---- *)
+Definition x_C14_pullurl (c : val) : val :=
+  let g := pull_url (gourl_of (dec_surl c)) in VL [enc_gourl g; enc_gourl (fix_url g)].
+Definition x_C14_pullurl_ok (v : val) : val :=
+  let u := dec_surl (nthv 0 v) in
+  match nthv 1 v with
+  | VL [kept; readback] => vbool (ok_pull u (dec_gourl kept) (dec_gourl readback))
+  | _ => vbool false
+  end.
